@@ -142,7 +142,7 @@ def cases(draw):
             st.fixed_dictionaries({"d": st.integers(0, 11), "name": gen.names()}),
             st.fixed_dictionaries({"t": st.integers(0, 11)}),
         )
-        case["dangling"] = draw(st.one_of(st.just([]), st.just([]), st.just([]),
+        case["dangling"] = draw(st.one_of(st.just([]), st.just([]),
                                           st.lists(dang, min_size=1, max_size=2)))
         # symlink-cache scenario: drop target objects although workspace symlinks point at them
         case["drop_symlinked"] = draw(st.sampled_from([False, False, True]))
@@ -398,7 +398,12 @@ def run_checkout_case(case, ctx):  # noqa: C901, PLR0912, PLR0915
                     parent = os.path.dirname(p)
                     if os.path.isdir(p) and not os.path.islink(p):
                         continue
-                    if os.path.lexists(parent) and not os.path.isdir(parent):
+                    anc, blocked = parent, False
+                    while len(anc) > len(ws):   # an ancestor that is a file or a (dangling) symlink
+                        if os.path.lexists(anc) and (os.path.islink(anc) or not os.path.isdir(anc)):
+                            blocked = True
+                        anc = os.path.dirname(anc)
+                    if blocked:
                         continue
                     os.makedirs(parent, exist_ok=True)
                     if os.path.lexists(p):
@@ -435,7 +440,16 @@ def run_checkout_case(case, ctx):  # noqa: C901, PLR0912, PLR0915
 
             dangling_before = set()
             before, dirs_before = snapshot(ws, dangling_before)
-            unreadable = bool(dangling_before)
+            # a workspace symlink into the cache directory holds no bytes of its own (what it shows
+            # is the cache's content, e.g. a corrupt object the harness planted under that name)
+            for rel in sorted(before):
+                p = os.path.join(ws, *rel.split("/")) if rel else ws
+                if os.path.islink(p) and os.path.realpath(p).startswith(os.path.realpath(cpath) + os.sep):
+                    del before[rel]
+                    dangling_before.add(rel)
+                    labels.add("workspace-symlink-into-cache")
+            unreadable = any(not os.path.exists(os.path.join(ws, *r.split("/")) if r else ws)
+                             for r in dangling_before)
             if unreadable:
                 labels.add("workspace-has-dangling-symlink")
             _, intact_before = cache_snapshot(cpath)
